@@ -48,6 +48,19 @@ ROLES = {
     "dns.rdtypes.IN.APL.APLItem.to_wire": ["__address = __address[0:__last]\n__l = len(__address)", "__header = struct.pack('!HBB', self.family, self.prefix, __l)"],
     "dns.rdtypes.IN.APL.APL._to_wire": ["for __item in self.items:"],
     "dns.rdtypes.svcbbase.SVCBBase.from_wire_parser": ["__pcls = _class_for_key.get(__pkey, GenericParam)"],
+    "dns.btree.BTree._check_mutable_and_park": ["for __cursor in self.cursors:"],
+    "dns.btree.BTree._delete": ["__cloned = self.root.maybe_cow(self.creator)", "__elt = self.root.delete(...)"],
+    "dns.btree.BTree.insert_element": ["__cloned = self.root.maybe_cow(self.creator)", "__old_root = self.root", "__oelt = self.root.insert_nonfull(...)"],
+    "dns.btree._Node._get_node": ["(__i, __equal) = self.search_in_node(key)", "__child = self.maybe_cow_child(__i)"],
+    "dns.btree._Node.clone": ["__cloned = self.__class__(self.t, creator, self.is_leaf)"],
+    "dns.btree._Node.maybe_cow_child": ["__child = self.children[index]\n__cloned = __child.maybe_cow(self.creator)"],
+    "dns.btree._Node.split": ["__right = self.__class__(self.t, self.creator, self.is_leaf)", "__middle = self.elts[_MIN(self.t)]"],
+    "dns.btree._Node.delete": ["__child = self.maybe_cow_child(...)"],
+    "dns.btreezone.Delegations.get_delegation": ["__cursor = self.cursor()", "__prev = __cursor.prev()", "__cut = __prev.key()", "(__reln, __any1, __any2) = name.fullcompare(__cut)", "__is_subdomain = __reln == dns.name.NameRelation.SUBDOMAIN"],
+    "dns.btreezone.Delegations.is_glue": ["__cursor = self.cursor()", "(__cut, __is_subdomain) = self.get_delegation(name)"],
+    "dns.btreezone.WritableVersion.delete_node": ["__node = self.nodes.get(name)"],
+    "dns.btreezone.WritableVersion.put_rdataset": ["(__node, name) = self._maybe_cow_with_name(name)"],
+    "dns.btreezone.WritableVersion.update_glue_flag": ["__cursor = self.nodes.cursor()", "__updates = []", "__elt = __cursor.next()", "__ename = __elt.key()", "__node = cast(dns.node.Node, __elt.value())", "__new_node = self.zone.node_factory()"],
     "dns.wirebase.Parser.get_bytes": ["__output = self.wire[self.current:self.current + size]"],
     "dns.wirebase.Parser.restrict_to": ["__saved_end = self.end"],
     "dns.rdata.Rdata.__eq__": ["__our_relative = False\n__their_relative = False", "__our = self.to_digestable()", "__their = other.to_digestable()"],
